@@ -39,7 +39,7 @@ UsedBy(u) == LET okr == {i \in 1..Len(Res) : Res[i].u = u /\ Res[i].kind \in {"u
 RECURSIVE SumR(_), SumF(_)
 SumR(S) == IF S = {} THEN 0 ELSE LET i == CHOOSE x \in S : TRUE IN Res[i].used + SumR(S \ {i})
 SumF(S) == IF S = {} THEN 0 ELSE LET i == CHOOSE x \in S : TRUE IN Fol[i].used + SumF(S \ {i})
-LsnsSent(u, ref) == {Res[i].lsn : i \in {i \in UsedBy(u).r : Res[i].ref = ref}} \cup {Fol[i].lsn : i \in {i \in UsedBy(u).f : Fol[i].ref = ref}}
+LsnsSent(u, ref) == {Res[i].lsn : i \in {i \in UsedBy(u).r : Res[i].ref = ref /\ Res[i].lsn # 0}} \cup {Fol[i].lsn : i \in {i \in UsedBy(u).f : Fol[i].ref = ref}}
 Conserved(u) == LET q == Ev.quiescent[u] IN
                 q.known => q.quota + q.reserved = Ev.credited - Ev.cost * (SumR(UsedBy(u).r) + SumF(UsedBy(u).f))
 NoDup(s) == Cardinality(ToSet(s)) = Len(s)
@@ -53,10 +53,19 @@ FileConsistent(u) == LET q == Ev.quiescent[u] IN
                                 /\ \A i \in 1..Len(q.fileRecs) : \E j \in 1..Len(q.memRecs) :
                                        q.fileRecs[i].ref = q.memRecs[j].ref /\ q.fileRecs[i].lsns = q.memRecs[j].lsns
 AllRefsRecorded(u) == LET q == Ev.quiescent[u] IN
-                      \A i \in UsedBy(u).r : q.known /\ Res[i].ref \in DOMAIN q.lsns /\ Res[i].lsn \in ToSet(q.lsns[Res[i].ref])
+                      \A i \in UsedBy(u).r : Res[i].lsn = 0 \/    \* (a release without usage)
+                                             (q.known /\ Res[i].ref \in DOMAIN q.lsns /\ Res[i].lsn \in ToSet(q.lsns[Res[i].ref]))
 
+\* every recharge that was answered 204 for a subscriber with sessions took effect: one notification per recharge names its
+\* rating group, and the rating group is served in reserve mode afterwards (the accounts of the mixes never run dry)
+Recharges == {i \in 1..Len(Res) : Res[i].kind = "recharge" /\ Res[i].status = 204 /\ \E j \in 1..Len(Ev.existing) : Ev.existing[j].u = Res[i].u}
+NotifCount(g) == Cardinality({k \in 1..Len(Ev.notifRgs) : ToString(Ev.notifRgs[k]) = g})
+RechargeLost == \E i \in Recharges :
+                   \/ NotifCount(Res[i].rg) # Cardinality({j \in Recharges : Res[j].rg = Res[i].rg})
+                   \/ ~(Res[i].rg \in DOMAIN Ev.rtypes[Res[i].u] /\ Ev.rtypes[Res[i].u][Res[i].rg] = "reserve")
 Step ==
   /\ viol' = viol
+       \cup (IF ~Ev.missed /\ RechargeLost THEN {V("recharge_not_lost", Sit)} ELSE {})
        \cup (IF Ev.missed THEN {V("all_requests_return", Sit)} ELSE {})
        \cup (IF \E i \in 1..Len(Res) : Res[i].status = -9 \/ Res[i].status >= 500 THEN {V("no_crash", Sit)} ELSE {})
        \cup (IF ~Ev.missed /\ \E i \in 1..Len(Fol) : Fol[i].timeout \/ Fol[i].update # 200 \/ Fol[i].release # 204
